@@ -22,6 +22,7 @@ def run(ctx):
             tail += 'taskreport sub "sub/dir_%d" { formats json columns id }\n' % i
         texts.append(projects.render(ap, extra_tail=tail).encode())
     bad, stats = [], Counter()
+    known_lines = []
     box = cli.Box(ctx)
     try:
         names = []
@@ -31,6 +32,8 @@ def run(ctx):
         box.put("empty.tjp", b"")
         box.put("syntax.tjp", b'project p "P" 2025-01-06 +1w {\n task a "A" { effort }\n')
         box.put("exists.json", b"{}")
+        box.put("binary.tjp", b'project p "P\xff\xfe" 2025-01-06 +1w {}\n')
+        box.put("escape.tjp", texts[0] + b'\ntaskreport esc "../escaped_by_name" { formats json columns id }\n')
         base_cwd = cli.listing(box.cwd)
 
         def leftovers(label, extra_ok=()):
@@ -61,6 +64,7 @@ def run(ctx):
                   ("output exists", ["report", "-o", "exists.json", names[0]], None, None),
                   ("output exists stdin", ["report", "--output", "exists.json"], texts[0], None),
                   ("verbose", ["--verbose", "report", names[0]], None, None),
+                  ("undecodable", ["report", "binary.tjp"], None, None),
                   ("output new file", ["report", "-o", "out_new.json", names[0]], None, None),
                   ("output forced", ["report", "--force", "-o", "exists.json", names[0]], None, None)]
         for label, args, stdin, key in paths:
@@ -71,6 +75,52 @@ def run(ctx):
             leftovers(label, extra_ok=("out_new.json",))
             if r["rc"] == "timeout":
                 bad.append({"what": "plan invocation hung", "path": label})
+        # ---- the temp-file life cycle, system call by system call, against Model/Cli.v (trace)
+        def model_trace(chan, inp, ok):
+            line = "trace %d %d %d" % (0 if chan == "file" else 1, {"missing": 0, "notafile": 1, "empty": 2, "content": 3, "undecodable": 4}[inp], 1 if ok else 0)
+            left, right = common.run_driver("miscdriver", [line])[0].split("|")
+            return left.split(), right.split()
+        traced = [("file ok", ["report", names[0]], None, ("file", "content", True)),
+                  ("file ok csv", ["report", "--csv", names[min(1, len(names) - 1)]], None, ("file", "content", True)),
+                  ("stdin ok", ["report"], texts[0], ("stdin", "content", True)),
+                  ("stdin - ok", ["report", "-"], texts[-1], ("stdin", "content", True)),
+                  ("file syntax error", ["report", "syntax.tjp"], None, ("file", "content", False)),
+                  ("stdin syntax error", ["report"], b'project p "P" 2025-01-06 +1w {\n', ("stdin", "content", False)),
+                  ("missing", ["report", "nope.tjp"], None, ("file", "missing", True)),
+                  ("empty file", ["report", "empty.tjp"], None, ("file", "empty", True)),
+                  ("empty stdin", ["report"], b"", ("stdin", "empty", True)),
+                  ("undecodable file", ["report", "binary.tjp"], None, ("file", "undecodable", True)),
+                  ("undecodable stdin", ["report"], b'project p "P\xff\xfe" 2025-01-06 +1w {}\n', ("stdin", "undecodable", True))]
+        for label, args, stdin, cls in traced:
+            r = box.run_traced(args, stdin=stdin)
+            want, left = model_trace(*cls)
+            if r.get("fsops") is None:
+                stats["strace_unavailable"] += 1
+                continue
+            stats["traced:" + label.split(" ")[0]] += 1
+            # (whether undecodable bytes on stdin fail in sys.stdin.read() or when the copy is written depends on
+            #  the interpreter's stdin error handler, i.e. on the locale: both orders clean up)
+            if (r["fsops"] != want and not (label == "undecodable stdin" and r["fsops"] == [])) or left:
+                bad.append({"what": "the sequence of temporary names created and removed differs from Model/Cli.v (trace)", "path": label,
+                            "system_calls": r["fsops"], "model": want, "model_names_left": left})
+            if r.get("other_names"):
+                bad.append({"what": "a plan invocation created or removed a name in TMPDIR that the model does not know", "path": label, "names": r["other_names"][:6]})
+            leftovers("traced " + label, extra_ok=("out_new.json",))
+        # ---- K02 (known finding): an own report whose name climbs out of the private output directory
+        r = box.run(["report", "escape.tjp"])
+        left = [x for x in cli.listing(box.tmp)]
+        if left:
+            k = common.match_known("C20", "K02 own report name leaves the private output directory")
+            if k and left == ["escaped_by_name.json"]:
+                known_lines.append(f"KNOWN-FINDING: property=C20 {k['what']}")
+                stats["K02_reproduced"] += 1
+            else:
+                bad.append({"what": "a plan invocation left files behind in the temporary directory", "path": "own report named ../escaped_by_name", "files": left[:6]})
+            for x in left:
+                try:
+                    os.remove(os.path.join(box.tmp, x))
+                except OSError:
+                    pass
         # ---- concurrent runs in the same directory: same and different inputs
         n = ctx.n(12, 60)
         jobs = []
@@ -116,7 +166,8 @@ def run(ctx):
         violations.append({"no_input": True, "replay": common.write_replay(ctx, {"property": "C20", "kind": "proof obligation no longer checks; no failing input found", "failing_obligations": failing})})
     cov = {"obligations": nob, "discharged": ndis, "checker_cmd": "tools/coqbuild.sh (coqc 8.16.1 full .vo build)", "trusted_base": common.TRUSTED, "files": files,
            "traces_validated_against_impl": sum(stats.values()), "input_distribution": dict(stats), "findings": len(bad),
-           "rule": "the real entry point as a subprocess with a private cwd and TMPDIR; directory listings before/after every exit path (success json/csv, stdin, own reports incl. one whose name contains a path separator, missing / empty / syntax-error input from file and stdin, output file exists with and without --force, new output file, --verbose); then N concurrent invocations (12 quick / 60 thorough) in the same cwd and TMPDIR on the same and on different inputs incl. failing ones, each compared byte-wise with its solitary run. The concurrent part is testing and labelled so.",
+           "rule": "the real entry point as a subprocess with a private cwd and TMPDIR; directory listings before/after every exit path (success json/csv, stdin, own reports incl. one whose name contains a path separator, missing / empty / syntax-error input from file and stdin, output file exists with and without --force, new output file, --verbose); nine of the paths also under strace: the order in which the run's own temporary names (stdin copy, combined file, private output directory) are created and removed is compared with the extracted Model/Cli.v (trace) and no other name may appear in TMPDIR; then N concurrent invocations (12 quick / 60 thorough) in the same cwd and TMPDIR on the same and on different inputs incl. failing ones, each compared byte-wise with its solitary run. The concurrent part is testing and labelled so.",
            "samples": [{"args": ["report", "-o", "exists.json", "p0.tjp"], "expect": "exit 2, nothing left in TMPDIR"}]}
     common.finish(ctx, "proof", cov, violations,
-                  ["partial: kernel scheduling and the file system are runtime; freshness of mkstemp / mkdtemp / token_hex names is the assumption of the commutation theorem"])
+                  ["partial: kernel scheduling and the file system are runtime; freshness of mkstemp / mkdtemp / token_hex names is the assumption of the commutation theorem"],
+                  known_lines)
